@@ -641,6 +641,19 @@ def idxbase(ctx):
             S = S or Sym(E, fa)
             recv = S.operand(t["args"][0])
             table = None
+            if recv[0] == "ap" and recv[1].root == ("arg", 1) and recv[1].proj and \
+                    str(recv[1].proj[0]).startswith("#") and f.j.get("closure_of"):
+                # a table bound to a variable and used inside a closure (`retain(|_, id| table.get(..))`)
+                par = f.j["closure_of"]
+                if par in crate.fns and crate.fns[par].body:
+                    pfa = E.fa(par)
+                    PS = Sym(E, pfa)
+                    kcap = int(str(recv[1].proj[0])[1:])
+                    for pb, pi, ps0 in pfa.stmts():
+                        prv = ps0.get("rv") or {}
+                        if prv.get("k") == "agg" and prv.get("agg") == "closure" and prv.get("closure") == p \
+                                and kcap < len(prv["ops"]):
+                            recv = strip_casts(PS.operand(prv["ops"][kcap]))
             if recv[0] == "call":
                 for k in IDX_BASE:
                     if recv[1].endswith("::" + k):
